@@ -306,32 +306,89 @@ theorem sh_execArray (ha : a ≤ N) (hL : L ≤ N) : RelS (Sh bp k N a) (PostC b
 theorem sh_execClosure (ha : a ≤ N) (hL : L ≤ N) : RelS (Sh bp k N a) (PostC bp k L) execClosure execClosure := by
   unfold execClosure; shrun
 
+theorem sh_execGetIndex (ha : a ≤ N) (hL : L ≤ N) : RelS (Sh bp k N a) (PostC bp k L) execGetIndex execGetIndex := by
+  unfold execGetIndex
+  sh1; sh1; sh1
+  refine RelS.bind (RelS.forIn_upto_exit (A := Sh bp k N a)
+      (VR := fun u u' => u = u' ∧ u.1 = none)
+      (E := fun u u' s t => ∃ r r', u.1 = some r ∧ u'.1 = some r' ∧ PostC bp k L r r' s t) _ _ _ _ _ ⟨rfl, rfl⟩ ?_) ?_
+  · intro i hi b b' hb
+    obtain ⟨hb1, hb2⟩ := hb
+    subst hb1
+    refine RelS.bindV (sh_stackGet _ _ (by omega) (by omega)) ?_
+    intro index _ h; subst h
+    refine RelS.bindV (sh_stackSet _ _ _ (by omega) _ (fun _ => Or.inl (Nat.le_refl _))) ?_
+    intro _ _ _
+    refine RelS.bindV (sh_foot (foot_vIndexGet _ _)) ?_
+    intro res _ h; subst h
+    split
+    · -- error: the adjusted error is thrown
+      refine RelS.bindV (B := Sh bp k N a) (VR := Eq) ?_ ?_
+      · apply sh_foot; foot
+      · intro e' _ h; subst h
+        refine RelS.bind (sh_failWith (L := L) e') ?_
+        intro r r'
+        exact RelS.pure (fun s t h => Or.inr ⟨_, _, rfl, rfl, r, r', rfl, rfl, h⟩)
+    · exact RelS.pure (fun s t h => Or.inl ⟨_, _, rfl, rfl, ⟨rfl, rfl⟩, h⟩)
+  · intro x y
+    refine RelS.pre_or ?_ ?_
+    · refine RelS.pre_and fun hxy => ?_
+      obtain ⟨h1, h2⟩ := hxy
+      subst h1
+      obtain ⟨o, v1, v2⟩ := x
+      simp only at h2
+      subst h2
+      dsimp only
+      shrun
+    · refine RelS.pre_exists fun r => RelS.pre_exists fun r' => ?_
+      refine RelS.pre_and fun hx => RelS.pre_and fun hy => ?_
+      rw [hx, hy]
+      exact RelS.pure (fun s t h => h)
+
+/-- the operand of MAP (number of stack items: keys and values) is even -/
+def OpEven (s : State) : Prop := ∀ n s', exec (opnd2 1) s = (.ok n, s') → n % 2 = 0
+
+theorem sh_opnd2_even :
+    RelS (fun s t => Sh bp k N a s t ∧ OpEven s) (PQ (fun x y => x = y ∧ x % 2 = 0) (Sh bp k N a)) (opnd2 1) (opnd2 1) := by
+  intro s t h x s' y t' h1 h2
+  have := sh_foot (foot_opnd2 1) s t h.1 x s' y t' h1 h2
+  exact ⟨⟨this.1, h.2 x s' h1⟩, this.2⟩
+
+theorem sh_execMap (ha : a ≤ N) (hL : L ≤ N) :
+    RelS (fun s t => Sh bp k N a s t ∧ OpEven s) (PostC bp k L) execMap execMap := by
+  unfold execMap
+  refine RelS.bindV sh_opnd2_even ?_
+  intro n _ ⟨h1, hn⟩
+  subst h1
+  shrun
+
 /-! ### dispatch and `step` -/
 
-/-- the opcodes covered by `frame_shift_partial`: everything except CALL, CALLNAME, RETURN, THROW,
-    SETUPTRY / SETUPCATCH / SETUPFINALLY / FINALIZER (handler stack), MAP and GETINDEX -/
+/-- the opcodes covered by `frame_shift_partial`: everything except CALL, CALLNAME, RETURN, THROW and
+    SETUPTRY / SETUPCATCH / SETUPFINALLY / FINALIZER (handler stack) -/
 def coveredOps : List Nat :=
   [OpNoOp, OpConstant, OpGetGlobal, OpSetGlobal, OpGetLocal, OpSetLocal, OpGetBuiltin, OpBinaryOp, OpUnary,
    OpEqual, OpNotEqual, OpJump, OpJumpFalsy, OpAndJump, OpOrJump, OpArray, OpSliceIndex, OpSetIndex, OpNull, OpPop,
    OpGetFree, OpSetFree, OpGetLocalPtr, OpGetFreePtr, OpClosure, OpIterInit, OpIterNext, OpIterKey, OpIterValue,
-   OpLoadModule, OpStoreModule, OpDefineLocal, OpTrue, OpFalse]
+   OpLoadModule, OpStoreModule, OpDefineLocal, OpTrue, OpFalse, OpMap, OpGetIndex]
 
 /-- the covered opcodes that READ a local slot addressed by their operand -/
 def localReadOps : List Nat := [OpGetLocal, OpSetLocal, OpGetLocalPtr]
 
 theorem sh_dispatch (F : FloatOps) (op : Nat) (hcov : op ∈ coveredOps) (ha : a ≤ N) (hL : L ≤ N) :
-    RelS (fun s t => Sh bp k N a s t ∧ (op ∈ localReadOps → OpLt L s)) (PostC bp k L) (dispatch F op) (dispatch F op) := by
+    RelS (fun s t => Sh bp k N a s t ∧ (op ∈ localReadOps → OpLt L s) ∧ (op = OpMap → OpEven s)) (PostC bp k L)
+      (dispatch F op) (dispatch F op) := by
   have weak : ∀ {m : M Ctl}, RelS (Sh bp k N a) (PostC bp k L) m m →
-      RelS (fun s t => Sh bp k N a s t ∧ (op ∈ localReadOps → OpLt L s)) (PostC bp k L) m m :=
+      RelS (fun s t => Sh bp k N a s t ∧ (op ∈ localReadOps → OpLt L s) ∧ (op = OpMap → OpEven s)) (PostC bp k L) m m :=
     fun h => h.conseq (fun _ _ h => h.1) (fun _ _ _ _ h => h)
   simp only [coveredOps, List.mem_cons, List.not_mem_nil, or_false] at hcov
-  rcases hcov with h | h | h | h | h | h | h | h | h | h | h | h | h | h | h | h | h | h | h | h | h | h | h | h | h | h | h | h | h | h | h | h | h | h <;> subst h
+  rcases hcov with h | h | h | h | h | h | h | h | h | h | h | h | h | h | h | h | h | h | h | h | h | h | h | h | h | h | h | h | h | h | h | h | h | h | h | h <;> subst h
   · exact weak (sh_execNoOp ha hL)
   · exact weak (sh_execConstant ha hL)
   · exact weak (sh_execGetGlobal ha hL)
   · exact weak (sh_execSetGlobal ha hL)
-  · exact (sh_execGetLocal ha hL).conseq (fun _ _ h => ⟨h.1, h.2 (by simp [localReadOps])⟩) (fun _ _ _ _ h => h)
-  · exact (sh_execSetLocal ha hL).conseq (fun _ _ h => ⟨h.1, h.2 (by simp [localReadOps])⟩) (fun _ _ _ _ h => h)
+  · exact (sh_execGetLocal ha hL).conseq (fun _ _ h => ⟨h.1, h.2.1 (by simp [localReadOps])⟩) (fun _ _ _ _ h => h)
+  · exact (sh_execSetLocal ha hL).conseq (fun _ _ h => ⟨h.1, h.2.1 (by simp [localReadOps])⟩) (fun _ _ _ _ h => h)
   · exact weak (sh_execGetBuiltin ha hL)
   · exact weak (sh_execBinaryOp F ha hL)
   · exact weak (sh_execUnary F ha hL)
@@ -348,7 +405,7 @@ theorem sh_dispatch (F : FloatOps) (op : Nat) (hcov : op ∈ coveredOps) (ha : a
   · exact weak (sh_execPop ha hL)
   · exact weak (sh_execGetFree ha hL)
   · exact weak (sh_execSetFree ha hL)
-  · exact (sh_execGetLocalPtr ha hL).conseq (fun _ _ h => ⟨h.1, h.2 (by simp [localReadOps])⟩) (fun _ _ _ _ h => h)
+  · exact (sh_execGetLocalPtr ha hL).conseq (fun _ _ h => ⟨h.1, h.2.1 (by simp [localReadOps])⟩) (fun _ _ _ _ h => h)
   · exact weak (sh_execGetFreePtr ha hL)
   · exact weak (sh_execClosure ha hL)
   · exact weak (sh_execIterInit ha hL)
@@ -360,6 +417,8 @@ theorem sh_dispatch (F : FloatOps) (op : Nat) (hcov : op ∈ coveredOps) (ha : a
   · exact weak (sh_execDefineLocal ha hL)
   · exact weak (sh_execTrue ha hL)
   · exact weak (sh_execFalse ha hL)
+  · exact (sh_execMap ha hL).conseq (fun _ _ h => ⟨h.1, h.2.2 rfl⟩) (fun _ _ _ _ h => h)
+  · exact weak (sh_execGetIndex ha hL)
 
 /-- `vm.ip++ ; vm.curInsts[vm.ip]` -/
 def fetchOp : M Nat := do
@@ -369,10 +428,11 @@ def fetchOp : M Nat := do
 theorem step_eq (F : FloatOps) : step F = (fetchOp >>= fun op => noteTrace op >>= fun _ => dispatch F op) := by
   simp only [step, fetchOp, bind_assoc]
 
-/-- what is asked of the instruction about to be executed by the child: it is a covered opcode,
-    and if it reads a local slot, its operand is below `L` (`NumLocals` of the function) -/
+/-- what is asked of the instruction about to be executed by the child: it is a covered opcode;
+    if it reads a local slot, its operand is below `L` (`NumLocals` of the function); if it is MAP, its
+    operand (keys + values) is even -/
 def StepOk (L : Nat) (s : State) : Prop :=
-  ∀ op s1, exec fetchOp s = (.ok op, s1) → op ∈ coveredOps ∧ (op ∈ localReadOps → OpLt L s1)
+  ∀ op s1, exec fetchOp s = (.ok op, s1) → op ∈ coveredOps ∧ (op ∈ localReadOps → OpLt L s1) ∧ (op = OpMap → OpEven s1)
 
 theorem sh_fetchOp : RelS (Sh bp k N a) (PQ Eq (Sh bp k N a)) fetchOp fetchOp := by
   unfold fetchOp
@@ -405,6 +465,28 @@ theorem OpLt_noteTrace (op : Nat) (s s' : State) (r : Unit) (h : OpLt L s) (e : 
   simp only at d
   exact h idx s2 (by rw [e2, ← d.1])
 
+theorem OpEven_noteTrace (op : Nat) (s s' : State) (r : Unit) (h : OpEven s) (e : exec (noteTrace op) s = (.ok r, s')) :
+    OpEven s' := by
+  have hv : view s' = view s := by
+    have : ∃ tr st, exec (noteTrace op) s = (.ok (), { s with trace := tr, steps := st }) := by
+      unfold noteTrace
+      simp only [exec_bind, exec_getS]
+      split
+      · exact ⟨_, _, rfl⟩
+      · exact ⟨_, _, rfl⟩
+    obtain ⟨tr, st, e'⟩ := this
+    rw [e'] at e
+    simp only [Prod.mk.injEq, Except.ok.injEq] at e
+    rw [← e.2]
+    rfl
+  intro n s'' e1
+  have d := (foot_opnd2 1).dep s' s hv
+  rw [e1] at d
+  rcases e2 : exec (opnd2 1) s with ⟨r2, s2⟩
+  rw [e2] at d
+  simp only at d
+  exact h n s2 (by rw [e2, ← d.1])
+
 /-- **frame_shift_partial.**  One instruction of the child (frame 0, base 0) and one instruction of
     the parent inside the callee's frame (frame k, base bp), started in `ShB`-related states, when the
     instruction is a covered opcode: if both `step`s end normally, either both continue and the states
@@ -427,7 +509,7 @@ theorem frame_shift_partial (F : FloatOps) :
       simp only at h1 h2
       obtain ⟨hop, hs1⟩ := sh_fetchOp s t h op s1 op' t1 e1 e2
       subst hop
-      obtain ⟨hcov, hloc⟩ := hok op s1 e1
+      obtain ⟨hcov, hloc, hev⟩ := hok op s1 e1
       rw [exec_bind] at h1 h2
       rcases e3 : exec (noteTrace op) s1 with ⟨r3, s2⟩
       rcases e4 : exec (noteTrace op) t1 with ⟨r4, t2⟩
@@ -441,7 +523,7 @@ theorem frame_shift_partial (F : FloatOps) :
         | ok u' =>
           simp only at h1 h2
           have hs2 := (sh_noteTrace op s1 t1 hs1 u s2 u' t2 e3 e4).2
-          exact sh_dispatch F op hcov ha hL s2 t2 ⟨hs2, fun hl => OpLt_noteTrace op s1 s2 u (hloc hl) e3⟩ r s' r' t' h1 h2
+          exact sh_dispatch F op hcov ha hL s2 t2 ⟨hs2, fun hl => OpLt_noteTrace op s1 s2 u (hloc hl) e3, fun hm => OpEven_noteTrace op s1 s2 u (hev hm) e3⟩ r s' r' t' h1 h2
 
 end
 end UgoVerif.Proofs.Shift
